@@ -312,6 +312,7 @@ type runner struct {
 	crashed    bool // an abrupt stop happened: resurrected entries may sit in pool and limbo at once
 	strictHeap bool
 	known      []string // occurrences of the open known finding (see fail)
+	mayExceed  bool     // a Reset reinjected without the eviction loop: stored may be above Datacap
 	gapAcct    map[int]bool // accounts whose dangling tail was explained by the C42-gap-after-stale-prefix mechanism
 	snaps      int
 	lastOp     bool
@@ -703,8 +704,16 @@ func (r *runner) check(d *blobpool.VerifDump, q, l []storeEnt, afterInit bool) {
 	if d.Stored != stored {
 		r.fail("stored %d is not the sum of storage sizes %d", d.Stored, stored)
 	}
+	// Datacap is enforced by Add and Init only: a Reset reinjects reorged-out txs without the
+	// eviction loop, so the pool may sit above the cap until the next accepted Add or restart
 	if d.Stored > r.datacap {
-		r.fail("stored %d above Datacap %d", d.Stored, r.datacap)
+		if r.mayExceed {
+			r.tags["over-cap-after-reinject"] = true
+		} else {
+			r.fail("stored %d above Datacap %d", d.Stored, r.datacap)
+		}
+	} else {
+		r.mayExceed = false
 	}
 	// (4) index_store_agree: ids(index) = ids(store), each id holding the indexed tx
 	if len(q) != len(indexIDs) {
@@ -1038,6 +1047,7 @@ func run(c Sx) (res Result) {
 			old := r.head
 			r.head = nb
 			r.pool.Reset(r.hdrOf[old.id], r.hdrOf[nb.id])
+			r.mayExceed = true
 			if nt >= 2 {
 				r.pool.VerifRebuildHeap()
 				r.nondet = true
